@@ -119,7 +119,16 @@ func OracleC01(run *common.Run, id string, res *Result) int {
 			fail("returned-root", fmt.Sprintf("Copy returned %s %s, expected node %d (%s %s)", got.MediaType, got.Digest, res.Root2, want.MediaType, want.Digest))
 		}
 		if res.TagNode != res.Root2 {
-			fail("tag-wrong", fmt.Sprintf("destination reference %q resolves to node %d, Copy returned node %d (mode=%s dst=%s rootPresent=%v)",
+			sig := "tag-wrong"
+			// known finding: a non-manifest root that was mounted (OnMounted is not wrapped by prepareCopy)
+			if c.Mount && !g.Nodes[res.Root2].IsManifest() && res.TagNode == -1 {
+				for _, t := range res.Toks {
+					if t == fmt.Sprintf("ME.%d.m", res.Root2) {
+						sig = "mounted-root-untagged"
+					}
+				}
+			}
+			fail(sig, fmt.Sprintf("destination reference %q resolves to node %d, Copy returned node %d (mode=%s dst=%s rootPresent=%v)",
 				c.EffRef(), res.TagNode, res.Root2, c.Mode, c.Dst, inSet(c.D0, res.Root2)))
 		}
 	}
@@ -191,6 +200,15 @@ func OracleC04(run *common.Run, id string, res *Result) int {
 			if t.b == "k" {
 				add("PEk", t.n, i)
 			}
+		case "MB":
+			add("MB", t.n, i)
+		case "ME":
+			if t.a == "c" {
+				add("PEk", t.n, i) // uploaded inside Mount: a transfer like a push
+			}
+			if t.a == "m" {
+				add("MEm", t.n, i)
+			}
 		case "CB":
 			add("CB"+t.kind, t.n, i)
 		case "CF":
@@ -212,6 +230,9 @@ func OracleC04(run *common.Run, id string, res *Result) int {
 		}
 		if pk := at("PEk", n); len(pk) > 0 && res.Err == nil {
 			pb := at("PB", n)
+			if len(pb) == 0 {
+				pb = pk // uploaded inside Mount: PreCopy is invoked by getContent, after Mount was called
+			}
 			if len(pre) != 1 || len(post) != 1 {
 				fail("callback-count", fmt.Sprintf("transferred node %d: %d PreCopy, %d PostCopy", n, len(pre), len(post)))
 			} else if !(pre[0] < pb[0] && pk[0] < post[0]) {
@@ -219,6 +240,14 @@ func OracleC04(run *common.Run, id string, res *Result) int {
 			}
 			if len(skip) != 0 {
 				fail("callback-count", fmt.Sprintf("node %d transferred and reported skipped", n))
+			}
+		}
+		if mm := at("MEm", n); len(mm) > 0 {
+			mo := at("CBmounted", n)
+			if len(mm) > 1 || len(mo) > 1 || (res.Err == nil && len(mo) != 1) || len(pre) != 0 || len(post) != 0 {
+				fail("callback-count", fmt.Sprintf("mounted node %d: %d mounts, %d OnMounted, %d PreCopy, %d PostCopy", n, len(mm), len(mo), len(pre), len(post)))
+			} else if len(mo) == 1 && mo[0] < mm[0] {
+				fail("callback-order", fmt.Sprintf("node %d: OnMounted before Mount returned", n))
 			}
 		}
 		if len(post) == 1 {
@@ -246,7 +275,7 @@ func OracleC04(run *common.Run, id string, res *Result) int {
 
 // Budget of one harness run.
 type Budget struct {
-	Main, Contention, Twin, CbFail int
+	Main, Contention, Twin, CbFail, Mount int
 	Reps                           int // extra schedules (latency seeds) per generated case
 }
 
@@ -282,6 +311,9 @@ func Drive(run *common.Run, prop string, b Budget) {
 		}
 		if c.MapRoot >= 0 {
 			run.Count("maproot")
+		}
+		if c.Mount {
+			run.Count("dst-mounter")
 		}
 		if c.Platform != "" {
 			run.Count("platform")
@@ -367,6 +399,7 @@ func Drive(run *common.Run, prop string, b Budget) {
 	stream("main", b.Main)
 	stream("contention", b.Contention)
 	stream("cbfail", b.CbFail)
+	stream("mount", b.Mount)
 	stream("twin", b.Twin)
 	os.Remove(currentCasePath(run.Dir))
 }
